@@ -31,5 +31,5 @@ def search(ctx):
 MANIFEST = dict(
     text="Theorems over the Wire model (the three 32-byte metadata layouts with one offset lemma per row of the document's tables, marshal/unmarshal round trip and injectivity on valid metadata, 32-byte length, protocol-type partition of 0..255, the 24-byte big-endian nonce increment as +1 mod 2^192 and its iteration, documented constants, the reply key of a UDP server session following the peer's most recent key and staying within the peer's three time salts) proved for all field values; constants regenerated from /repo; the model is compared with pkg/protocol Marshal/Unmarshal/predicates and pkg/cipher increaseNonce on boundary corpora, every protocol byte and random cases; key derivation, user hint, complete TCP streams and UDP datagrams, the low-entropy codec and the UDP-associate frame are compared in both directions with an independent codec written from docs/protocol.md.",
     note="Crypto primitives are uninterpreted in the model (vectors and interop only). The timestamp window belongs to C08. Interop is at the level of readOneSegment/writeOneSegment over in-memory connections (server side through the real user registry), not whole endpoints.",
-    technique="Coq proof (lists of N, lia with div/mod, vm_compute over 0..255) of layout/round-trip/nonce theorems + differential run of the extracted model against pkg/protocol and pkg/cipher + interop with harness/refcodec",
+    technique="Coq proof (lists of N, lia with div/mod, vm_compute over 0..255) of layout/round-trip/nonce theorems; the metadata codecs (sessionStruct.Marshal/Unmarshal, dataAckStruct.Marshal), the protocol predicates and increaseNonce translated from the Go source on every run (go2coq) and proved equal to the model (C09_source_*) + differential run of the extracted model against pkg/protocol and pkg/cipher + interop with harness/refcodec",
 )
